@@ -195,7 +195,7 @@ def main(argv):
         harness_err.append('engine/pristine mismatch on %d witnesses, e.g. %s'
                            % (len(mismatches), json.dumps(mismatches[0])[:600]))
     missing = [c for c in h.expected_classes if not classes.get(c)]
-    if missing and not unfinished and not crashes:
+    if missing and not unfinished and not crashes and not only:
         harness_err.append('vacuity: outcome classes never reached: %s' % missing)
     if agg['paths'] == 0:
         harness_err.append('no path explored')
